@@ -297,12 +297,40 @@ pub fn c05(tier: Tier) -> i32 {
         }
         Scenario { data: vec![], env: env.clone(), alphabet, positions: true, iterate_failed_sets: false, policy_clauses: false, explore_post: false, strict_after_buffer_limit: false }
     });
-    let n = scenarios.len();
+    // (c) positions stay true after a failed seek / read: one source failure at every call index,
+    // histories continued past the error
+    let mut scenarios = scenarios;
+    let n_b = scenarios.len();
+    for &format in &[Format::Fasta, Format::Fastq] {
+        for data in small_inputs(format, Tier::Quick) {
+            let rs = reference(format, &data);
+            let nrec = rs.recs.len();
+            if nrec < 2 {
+                continue;
+            }
+            let caps: Vec<usize> = hist_caps(&data, &rs, tier).into_iter().filter(|c| tier == Tier::Thorough || c % 3 == 0 || *c > data.len()).collect();
+            for cap in caps {
+                let env0 = Env { format, cap, chunk: Chunk::All, int: IntPat::None, policy: PolKind::Std, fault: None };
+                let t = source_calls(&data, &env0) + 3;
+                for k in 0..t {
+                    let mut env = env0.clone();
+                    env.fault = Some(Fault { at: k, kind: FaultKind::Other });
+                    let mut alphabet = vec![Op::N, Op::SA];
+                    for i in 0..nrec.min(3) {
+                        alphabet.push(Op::K(i as u8));
+                    }
+                    scenarios.push(Scenario { data: data.clone(), env, alphabet, positions: true, iterate_failed_sets: false, policy_clauses: false, explore_post: true, strict_after_buffer_limit: false });
+                }
+            }
+        }
+    }
+    let n_c = scenarios.len() - n_b;
+    let n = n_b;
     let code = run_hist_with(HistCfg {
         prop: "C05",
         tier,
         state_cap: if tier == Tier::Quick { 3000 } else { 60000 },
-        rule: format!("(a) {} ; (b) explicit-state BFS to fixpoint over {{next, read_record_set, read_record_set_exact(2), seek(position of record i) for EVERY record i and for the invalid FASTQ record}} from every reachable reader state (New, Parsing, Incomplete/Positioned with partial search state, Finished after end / after a parse error), {} scenarios (input x capacity x chunking) so that both the in-buffer shortcut and the real source seek are taken (counted in seeks_in_buffer / seeks_through_source); oracle: after seek(i) all reads behave as the reference stream from record i, position() after next() and after set reads = reference coordinates", a_rule, n),
+        rule: format!("(a) {} ; (b) explicit-state BFS to fixpoint over {{next, read_record_set, read_record_set_exact(2), seek(position of record i) for EVERY record i and for the invalid FASTQ record}} from every reachable reader state (New, Parsing, Incomplete/Positioned with partial search state, Finished after end / after a parse error), {} scenarios (input x capacity x chunking) so that both the in-buffer shortcut and the real source seek are taken (counted in seeks_in_buffer / seeks_through_source); oracle: after seek(i) all reads behave as the reference stream from record i, position() after next() and after set reads = reference coordinates; (c) {} scenarios with one source failure (read or seek) at every source call index and histories continued past the error: every record returned afterwards is genuine and position() is its true location, and seeks keep landing on the right record", a_rule, n, n_c),
         scenarios,
         plain_depth: if tier == Tier::Quick { 4 } else { 5 },
         plain_every: 40,
